@@ -169,7 +169,8 @@ class UseWalrusIf(SimpleCodemod, NameResolutionMixin):
                         test=updated_node.test.with_changes(left=new_expression)
                     )
 
-        return original_node
+        # not `original_node`: an `if` that is not itself rewritten may contain one that is
+        return updated_node
 
     def leave_Assign(self, original_node: cst.Assign, updated_node: cst.Assign):
         del updated_node
